@@ -412,33 +412,24 @@ func (fr *frame) runLoop(L *loopInfo) {
 			}
 			return
 		}
-		if iter >= bound {
-			// one extra pass over the header only: whatever still wants to
-			// enter the body (or loop again) is the unwinding condition
+		if iter > bound {
+			// bound+1 full passes were executed (so that every evaluation of the
+			// loop condition after `bound` iterations is covered); whatever
+			// still wants to re-enter the header is the unwinding condition
 			name := fr.fn.String()
-			fr.execBlock(L.header)
-			var stay []*Term
-			for _, b := range L.order {
-				if gg := fr.guardOf(b); !gg.IsFalse() {
-					stay = append(stay, gg)
-					fr.inG[b] = tFalse
-					for _, in := range b.Instrs {
-						if phi, ok := in.(*ssa.Phi); ok {
-							delete(fr.phiAcc, phi)
-						}
-					}
+			cond := g
+			fr.inG[L.header] = tFalse
+			for _, in := range L.header.Instrs {
+				if phi, ok := in.(*ssa.Phi); ok {
+					delete(fr.phiAcc, phi)
 				}
 			}
-			cond := Or(stay...)
-			if !cond.IsFalse() {
-				if e.spec.AssumeUnwind[fr.fn.Name()] || e.spec.AssumeUnwind[name] || e.spec.AssumeUnwind["*"] {
-					e.note(fmt.Sprintf("loop in %s: exit after %d iterations ASSUMED (outside the claim beyond)", name, bound))
-				} else {
-					e.oblige("unwind", fmt.Sprintf("unwinding assertion: loop in %s needs more than %d iterations", fr.fn.Name(), bound), cond, L.header.Instrs[0].Pos(), name)
-					e.assumeFact(Not(cond))
-					cond = tFalse
-				}
+			if e.spec.AssumeUnwind[fr.fn.Name()] || e.spec.AssumeUnwind[name] || e.spec.AssumeUnwind["*"] {
+				e.note(fmt.Sprintf("loop in %s: exit after %d iterations ASSUMED (outside the claim beyond)", name, bound))
 				e.assume(Not(cond))
+			} else {
+				e.oblige("unwind", fmt.Sprintf("unwinding assertion: loop in %s needs more than %d iterations", fr.fn.Name(), bound), cond, L.header.Instrs[0].Pos(), name)
+				e.assumeFact(Not(cond))
 			}
 			e.maxUnwind[name] = bound
 			return
